@@ -1872,3 +1872,649 @@ Theorem C08_hasExpectationWithName_model :
   (fun _ : expn => true) (relates f) (fun e : expn => CSem.b2z (relates f e)).
 Proof. exact C08_ListTie.hasExpectationWithName_model. Qed.
 Print Assumptions C08_hasExpectationWithName_model.
+
+(* --------------------------------------------------------------------------------------------------------------
+   SOURCE TIE (actual call): the matching steps of MockCheckedActualCall (src/CppUTestExt/MockActualCall.cpp: withName, checkInputParameter, checkOutputParameter, onObject, checkExpectations, completeCallWhenMatchIsFound, discardCurrentlyMatchingExpectations, failTest) as translated on every run into gen/Gen_HeapC08L.v -- with the answers the model's expectations give at the moment each question is asked, every step leaves a heap that represents the model's complete / discard / with_name / check_input / check_output / on_object / check_call, reports the failure class of the model's failure kind exactly once, and the 'cannot happen' FAIL is unreachable from states the steps produce
+   -------------------------------------------------------------------------------------------------------------- *)
+From CppUVerif Require C08_CallRep C08_CallTie.
+Local Open Scope Z_scope.
+Theorem C08_completeCallWhenMatchIsFound_tie :
+  forall (fuel : nat) (h : CHeap.heap) (cb : nat) (es : list expn) (idof : nat -> Z)
+  (nodes : list nat) (c : acall) (nm : Z) (x : C08_CallTie.cenv) (evs : list Gen_HeapC08L.lev)
+  (rest : list Z),
+  C08_CallTie.acall_at h cb es idof nodes c nm x ->
+  existsb e_cur es = false ->
+  (C08_CallTie.ncand es < fuel)%nat ->
+  exists h' : CHeap.heap,
+  Gen_HeapC08L.src_acall_completeCallWhenMatchIsFound fuel h evs (C08_CallTie.complete_answers es ++ rest)
+  (CHeap.HPtr cb 0) = CMem.FOk (tt, h', evs ++ C08_CallTie.complete_events idof nodes es, rest) /\
+  C08_CallTie.acall_at h' cb (fst (complete es c)) idof (C08_CallTie.complete_nodes nodes es)
+  (snd (complete es c)) nm x /\ C08_CallTie.cframe h h' cb nodes (C08_CallTie.complete_nodes nodes es).
+Proof. exact C08_CallTie.completeCallWhenMatchIsFound_tie. Qed.
+Print Assumptions C08_completeCallWhenMatchIsFound_tie.
+
+Theorem C08_discardCurrentlyMatchingExpectations_tie :
+  forall (fuel : nat) (h : CHeap.heap) (cb : nat) (es : list expn) (idof : nat -> Z)
+  (nodes : list nat) (c : acall) (nm : Z) (x : C08_CallTie.cenv) (evs : list Gen_HeapC08L.lev)
+  (rest : list Z) (cur : Z),
+  C08_CallTie.arep h cb (C08_CallTie.blk_of nm c x cur) es idof nodes ->
+  (C08_CallTie.ncand es < fuel)%nat ->
+  exists h' : CHeap.heap,
+  Gen_HeapC08L.src_acall_discardCurrentlyMatchingExpectations fuel h evs
+  (C08_CallTie.discard_answers es ++ rest) (CHeap.HPtr cb 0) =
+  CMem.FOk (tt, h', evs ++ C08_CallTie.discard_events idof nodes es cur, rest) /\
+  C08_CallTie.arep h' cb (C08_CallTie.blk_of nm c x 0) (discard es) idof (C08_CallTie.discard_nodes nodes es) /\
+  C08_CallTie.cframe h h' cb nodes (C08_CallTie.discard_nodes nodes es) /\
+  (cur = 0 <-> existsb e_cur es = false).
+Proof. exact C08_CallTie.discardCurrentlyMatchingExpectations_tie. Qed.
+Print Assumptions C08_discardCurrentlyMatchingExpectations_tie.
+
+Theorem C08_withName_tie :
+  forall (fuel : nat) (h : CHeap.heap) (cb : nat) (es : list expn) (idof : nat -> Z)
+  (nodes : list nat) (c : acall) (nm0 nm : Z) (x : C08_CallTie.cenv) (evs : list Gen_HeapC08L.lev)
+  (rest : list Z),
+  C08_CallTie.acall_at h cb es idof nodes c nm0 x ->
+  existsb e_cur es = false ->
+  (C08_CallTie.ncand es < fuel)%nat ->
+  let f := c_name c in
+  exists h' : CHeap.heap,
+  Gen_HeapC08L.src_acall_withName fuel h evs (C08_CallTie.with_name_answers f es ++ rest) (CHeap.HPtr cb 0) nm =
+  CMem.FOk (tt, h', evs ++ C08_CallTie.with_name_events nm f idof nodes es, rest) /\
+  C08_CallTie.cframe h h' cb nodes (C08_CallTie.with_name_nodes f nodes es) /\
+  match with_name es c with
+  | inl (es', c') =>
+  C08_CallTie.acall_at h' cb es' idof (C08_CallTie.with_name_nodes f nodes es) c' nm x /\
+  C08_CallTie.fails (C08_CallTie.with_name_events nm f idof nodes es) = []
+  | inr fl =>
+  C08_CallTie.acall_at h' cb (keep_if (relates f) es) idof (C08_CallTie.with_name_nodes f nodes es)
+  (set_state c Failed) nm x /\
+  C08_CallTie.fails (C08_CallTie.with_name_events nm f idof nodes es) =
+  [Gen_HeapC08L.LFailure (C08_CallTie.fail_class (f_kind fl)); Gen_HeapC08L.LReport]
+  end.
+Proof. exact C08_CallTie.withName_tie. Qed.
+Print Assumptions C08_withName_tie.
+
+Theorem C08_checkInputParameter_tie :
+  forall (vn : Z -> Z) (fuel : nat) (h : CHeap.heap) (cb : nat) (es : list expn) (idof : nat -> Z)
+  (nodes : list nat) (c : acall) (nm : Z) (x : C08_CallTie.cenv) (cur : Z) (evs : list Gen_HeapC08L.lev)
+  (rest : list Z) (pm : Z) (n : name) (v : pv),
+  C08_CallTie.arep h cb (C08_CallTie.blk_of nm c x cur) es idof nodes ->
+  c_state c <> Failed ->
+  (C08_CallTie.ncand es < fuel)%nat ->
+  let A := C08_CallTie.ck_answers (has_input n v) (mark n) es in
+  let E :=
+  C08_CallTie.ck_events
+  (String.String (Ascii.Ascii true false true true false false true false)
+  (String.String (Ascii.Ascii true true true true false true true false)
+  (String.String (Ascii.Ascii true true false false false true true false)
+  (String.String (Ascii.Ascii true true false true false true true false)
+  (String.String (Ascii.Ascii true false true false true false true false)
+  (String.String (Ascii.Ascii false true true true false true true false)
+  (String.String (Ascii.Ascii true false true false false true true false)
+  (String.String (Ascii.Ascii false false false true true true true false)
+  (String.String (Ascii.Ascii false false false false true true true false)
+  (String.String (Ascii.Ascii true false true false false true true false)
+  (String.String (Ascii.Ascii true true false false false true true false)
+  (String.String (Ascii.Ascii false false true false true true true false)
+  (String.String
+  (Ascii.Ascii true false true false false true true false)
+  (String.String
+  (Ascii.Ascii false false true false false true true false)
+  (String.String
+  (Ascii.Ascii true false false true false false true false)
+  (String.String
+  (Ascii.Ascii false true true true false true true false)
+  (String.String
+  (Ascii.Ascii false false false false true true true
+  false)
+  (String.String
+  (Ascii.Ascii true false true false true true true
+  false)
+  (String.String
+  (Ascii.Ascii false false true false true true
+  true false)
+  (String.String
+  (Ascii.Ascii false false false false true
+  false true false)
+  (String.String
+  (Ascii.Ascii true false false false false
+  true true false)
+  (String.String
+  (Ascii.Ascii false true false false true
+  true true false)
+  (String.String
+  (Ascii.Ascii true false false false
+  false true true false)
+  (String.String
+  (Ascii.Ascii true false true true
+  false true true false)
+  (String.String
+  (Ascii.Ascii true false true
+  false false true true false)
+  (String.String
+  (Ascii.Ascii false false true
+  false true true true false)
+  (String.String
+  (Ascii.Ascii true false true
+  false false true true false)
+  (String.String
+  (Ascii.Ascii false true false
+  false true true true false)
+  (String.String
+  (Ascii.Ascii false true true
+  false false false true false)
+  (String.String
+  (Ascii.Ascii true false false
+  false false true true false)
+  (String.String
+  (Ascii.Ascii true false false
+  true false true true false)
+  (String.String
+  (Ascii.Ascii false false true
+  true false true true false)
+  (String.String
+  (Ascii.Ascii true false true
+  false true true true false)
+  (String.String
+  (Ascii.Ascii false true false
+  false true true true false)
+  (String.String
+  (Ascii.Ascii true false true
+  false false true true false)
+  String.EmptyString)))))))))))))))))))))))))))))))))))
+  (has_input n v) (mark n)
+  (fun id a : Z =>
+  Gen_HeapC08L.LAskArg
+  (String.String (Ascii.Ascii false false false true false true true false)
+  (String.String (Ascii.Ascii true false false false false true true false)
+  (String.String (Ascii.Ascii true true false false true true true false)
+  (String.String (Ascii.Ascii true false false true false false true false)
+  (String.String (Ascii.Ascii false true true true false true true false)
+  (String.String (Ascii.Ascii false false false false true true true false)
+  (String.String (Ascii.Ascii true false true false true true true false)
+  (String.String (Ascii.Ascii false false true false true true true false)
+  (String.String (Ascii.Ascii false false false false true false true false)
+  (String.String (Ascii.Ascii true false false false false true true false)
+  (String.String (Ascii.Ascii false true false false true true true false)
+  (String.String
+  (Ascii.Ascii true false false false false true true false)
+  (String.String
+  (Ascii.Ascii true false true true false true true false)
+  (String.String
+  (Ascii.Ascii true false true false false true true false)
+  (String.String
+  (Ascii.Ascii false false true false true true true false)
+  (String.String
+  (Ascii.Ascii true false true false false true true
+  false)
+  (String.String
+  (Ascii.Ascii false true false false true true true
+  false) String.EmptyString))))))))))))))))) id pm
+  a)
+  (fun id : Z =>
+  Gen_HeapC08L.LTellArg
+  (String.String (Ascii.Ascii true false false true false true true false)
+  (String.String (Ascii.Ascii false true true true false true true false)
+  (String.String (Ascii.Ascii false false false false true true true false)
+  (String.String (Ascii.Ascii true false true false true true true false)
+  (String.String (Ascii.Ascii false false true false true true true false)
+  (String.String (Ascii.Ascii false false false false true false true false)
+  (String.String (Ascii.Ascii true false false false false true true false)
+  (String.String (Ascii.Ascii false true false false true true true false)
+  (String.String (Ascii.Ascii true false false false false true true false)
+  (String.String (Ascii.Ascii true false true true false true true false)
+  (String.String (Ascii.Ascii true false true false false true true false)
+  (String.String
+  (Ascii.Ascii false false true false true true true false)
+  (String.String
+  (Ascii.Ascii true false true false false true true false)
+  (String.String
+  (Ascii.Ascii false true false false true true true false)
+  (String.String
+  (Ascii.Ascii true true true false true false true false)
+  (String.String
+  (Ascii.Ascii true false false false false true true
+  false)
+  (String.String
+  (Ascii.Ascii true true false false true true true
+  false)
+  (String.String
+  (Ascii.Ascii false false false false true false
+  true false)
+  (String.String
+  (Ascii.Ascii true false false false false true
+  true false)
+  (String.String
+  (Ascii.Ascii true true false false true
+  true true false)
+  (String.String
+  (Ascii.Ascii true true false false true
+  true true false)
+  (String.String
+  (Ascii.Ascii true false true false
+  false true true false)
+  (String.String
+  (Ascii.Ascii false false true
+  false false true true false)
+  String.EmptyString)))))))))))))))))))))))
+  id (vn pm)) idof nodes es cur in
+  let N := C08_CallTie.ck_nodes (has_input n v) (mark n) nodes es in
+  exists h' : CHeap.heap,
+  Gen_HeapC08L.src_acall_checkInputParameter vn fuel h evs (A ++ rest) (CHeap.HPtr cb 0) pm =
+  CMem.FOk (tt, h', evs ++ E, rest) /\
+  C08_CallTie.cframe h h' cb nodes N /\
+  match check_input n v es c with
+  | inl (es', c') => C08_CallTie.acall_at h' cb es' idof N c' nm x /\ C08_CallTie.fails E = []
+  | inr fl =>
+  C08_CallTie.acall_at h' cb (keep_if (has_input n v) (discard es)) idof N (set_state c Failed) nm x /\
+  C08_CallTie.fails E = [Gen_HeapC08L.LFailure (C08_CallTie.fail_class (f_kind fl)); Gen_HeapC08L.LReport]
+  end.
+Proof. exact C08_CallTie.checkInputParameter_tie. Qed.
+Print Assumptions C08_checkInputParameter_tie.
+
+Theorem C08_checkOutputParameter_tie :
+  forall (vn : Z -> Z) (fuel : nat) (h : CHeap.heap) (cb : nat) (es : list expn) (idof : nat -> Z)
+  (nodes : list nat) (c : acall) (nm : Z) (x : C08_CallTie.cenv) (cur : Z) (evs : list Gen_HeapC08L.lev)
+  (rest : list Z) (pm : Z) (n : name) (buf : list N),
+  C08_CallTie.arep h cb (C08_CallTie.blk_of nm c x cur) es idof nodes ->
+  c_state c <> Failed ->
+  (C08_CallTie.ncand es < fuel)%nat ->
+  let A := C08_CallTie.ck_answers (has_output n) (mark_out n) es in
+  let E :=
+  C08_CallTie.ck_events
+  (String.String (Ascii.Ascii true false true true false false true false)
+  (String.String (Ascii.Ascii true true true true false true true false)
+  (String.String (Ascii.Ascii true true false false false true true false)
+  (String.String (Ascii.Ascii true true false true false true true false)
+  (String.String (Ascii.Ascii true false true false true false true false)
+  (String.String (Ascii.Ascii false true true true false true true false)
+  (String.String (Ascii.Ascii true false true false false true true false)
+  (String.String (Ascii.Ascii false false false true true true true false)
+  (String.String (Ascii.Ascii false false false false true true true false)
+  (String.String (Ascii.Ascii true false true false false true true false)
+  (String.String (Ascii.Ascii true true false false false true true false)
+  (String.String (Ascii.Ascii false false true false true true true false)
+  (String.String
+  (Ascii.Ascii true false true false false true true false)
+  (String.String
+  (Ascii.Ascii false false true false false true true false)
+  (String.String
+  (Ascii.Ascii true true true true false false true false)
+  (String.String
+  (Ascii.Ascii true false true false true true true false)
+  (String.String
+  (Ascii.Ascii false false true false true true true
+  false)
+  (String.String
+  (Ascii.Ascii false false false false true true true
+  false)
+  (String.String
+  (Ascii.Ascii true false true false true true true
+  false)
+  (String.String
+  (Ascii.Ascii false false true false true true
+  true false)
+  (String.String
+  (Ascii.Ascii false false false false true
+  false true false)
+  (String.String
+  (Ascii.Ascii true false false false
+  false true true false)
+  (String.String
+  (Ascii.Ascii false true false false
+  true true true false)
+  (String.String
+  (Ascii.Ascii true false false
+  false false true true false)
+  (String.String
+  (Ascii.Ascii true false true
+  true false true true false)
+  (String.String
+  (Ascii.Ascii true false true
+  false false true true false)
+  (String.String
+  (Ascii.Ascii false false true
+  false true true true false)
+  (String.String
+  (Ascii.Ascii true false true
+  false false true true false)
+  (String.String
+  (Ascii.Ascii false true false
+  false true true true false)
+  (String.String
+  (Ascii.Ascii false true true
+  false false false true false)
+  (String.String
+  (Ascii.Ascii true false false
+  false false true true false)
+  (String.String
+  (Ascii.Ascii true false false
+  true false true true false)
+  (String.String
+  (Ascii.Ascii false false true
+  true false true true false)
+  (String.String
+  (Ascii.Ascii true false true
+  false true true true false)
+  (String.String
+  (Ascii.Ascii false true false
+  false true true true false)
+  (String.String
+  (Ascii.Ascii true false true
+  false false true true false)
+  String.EmptyString))))))))))))))))))))))))))))))))))))
+  (has_output n) (mark_out n)
+  (fun id a : Z =>
+  Gen_HeapC08L.LAskArg
+  (String.String (Ascii.Ascii false false false true false true true false)
+  (String.String (Ascii.Ascii true false false false false true true false)
+  (String.String (Ascii.Ascii true true false false true true true false)
+  (String.String (Ascii.Ascii true true true true false false true false)
+  (String.String (Ascii.Ascii true false true false true true true false)
+  (String.String (Ascii.Ascii false false true false true true true false)
+  (String.String (Ascii.Ascii false false false false true true true false)
+  (String.String (Ascii.Ascii true false true false true true true false)
+  (String.String (Ascii.Ascii false false true false true true true false)
+  (String.String (Ascii.Ascii false false false false true false true false)
+  (String.String (Ascii.Ascii true false false false false true true false)
+  (String.String
+  (Ascii.Ascii false true false false true true true false)
+  (String.String
+  (Ascii.Ascii true false false false false true true false)
+  (String.String
+  (Ascii.Ascii true false true true false true true false)
+  (String.String
+  (Ascii.Ascii true false true false false true true false)
+  (String.String
+  (Ascii.Ascii false false true false true true true
+  false)
+  (String.String
+  (Ascii.Ascii true false true false false true true
+  false)
+  (String.String
+  (Ascii.Ascii false true false false true true
+  true false) String.EmptyString))))))))))))))))))
+  id pm a)
+  (fun id : Z =>
+  Gen_HeapC08L.LTellArg
+  (String.String (Ascii.Ascii true true true true false true true false)
+  (String.String (Ascii.Ascii true false true false true true true false)
+  (String.String (Ascii.Ascii false false true false true true true false)
+  (String.String (Ascii.Ascii false false false false true true true false)
+  (String.String (Ascii.Ascii true false true false true true true false)
+  (String.String (Ascii.Ascii false false true false true true true false)
+  (String.String (Ascii.Ascii false false false false true false true false)
+  (String.String (Ascii.Ascii true false false false false true true false)
+  (String.String (Ascii.Ascii false true false false true true true false)
+  (String.String (Ascii.Ascii true false false false false true true false)
+  (String.String (Ascii.Ascii true false true true false true true false)
+  (String.String
+  (Ascii.Ascii true false true false false true true false)
+  (String.String
+  (Ascii.Ascii false false true false true true true false)
+  (String.String
+  (Ascii.Ascii true false true false false true true false)
+  (String.String
+  (Ascii.Ascii false true false false true true true false)
+  (String.String
+  (Ascii.Ascii true true true false true false true false)
+  (String.String
+  (Ascii.Ascii true false false false false true true
+  false)
+  (String.String
+  (Ascii.Ascii true true false false true true true
+  false)
+  (String.String
+  (Ascii.Ascii false false false false true
+  false true false)
+  (String.String
+  (Ascii.Ascii true false false false false
+  true true false)
+  (String.String
+  (Ascii.Ascii true true false false true
+  true true false)
+  (String.String
+  (Ascii.Ascii true true false false
+  true true true false)
+  (String.String
+  (Ascii.Ascii true false true false
+  false true true false)
+  (String.String
+  (Ascii.Ascii false false true
+  false false true true false)
+  String.EmptyString))))))))))))))))))))))))
+  id (vn pm)) idof nodes es cur in
+  let N := C08_CallTie.ck_nodes (has_output n) (mark_out n) nodes es in
+  exists h' : CHeap.heap,
+  Gen_HeapC08L.src_acall_checkOutputParameter vn fuel h evs (A ++ rest) (CHeap.HPtr cb 0) pm =
+  CMem.FOk (tt, h', evs ++ E, rest) /\
+  C08_CallTie.cframe h h' cb nodes N /\
+  match check_output n buf es c with
+  | inl (es', c') => C08_CallTie.acall_at h' cb es' idof N c' nm x /\ C08_CallTie.fails E = []
+  | inr fl =>
+  C08_CallTie.acall_at h' cb (keep_if (has_output n) (discard es)) idof N (set_state c Failed) nm x /\
+  C08_CallTie.fails E = [Gen_HeapC08L.LFailure (C08_CallTie.fail_class (f_kind fl)); Gen_HeapC08L.LReport]
+  end.
+Proof. exact C08_CallTie.checkOutputParameter_tie. Qed.
+Print Assumptions C08_checkOutputParameter_tie.
+
+Theorem C08_onObject_tie :
+  forall (fuel : nat) (h : CHeap.heap) (cb : nat) (es : list expn) (idof : nat -> Z)
+  (nodes : list nat) (c : acall) (nm : Z) (x : C08_CallTie.cenv) (cur : Z) (evs : list Gen_HeapC08L.lev)
+  (rest : list Z) (ob a : Z),
+  C08_CallTie.arep h cb (C08_CallTie.blk_of nm c x cur) es idof nodes ->
+  c_state c <> Failed ->
+  (C08_CallTie.ncand es < fuel)%nat ->
+  let nocur := negb (existsb e_cur es) in
+  let A := C08_CallTie.oo_answers a nocur es in
+  let E := C08_CallTie.oo_events ob a nocur idof nodes es in
+  let N := C08_CallTie.oo_nodes a nocur nodes es in
+  exists h' : CHeap.heap,
+  Gen_HeapC08L.src_acall_onObject fuel h evs (A ++ rest) (CHeap.HPtr cb 0) ob =
+  CMem.FOk (tt, h', evs ++ E, rest) /\
+  C08_CallTie.cframe h h' cb nodes N /\
+  match on_object a es c with
+  | inl (es', c') => C08_CallTie.acall_at h' cb es' idof N c' nm x /\ C08_CallTie.fails E = []
+  | inr fl =>
+  C08_CallTie.acall_at h' cb (keep_if (relates_obj a) es) idof N (set_state c Failed) nm x /\
+  C08_CallTie.fails E = [Gen_HeapC08L.LFailure (C08_CallTie.fail_class (f_kind fl)); Gen_HeapC08L.LReport]
+  end.
+Proof. exact C08_CallTie.onObject_tie. Qed.
+Print Assumptions C08_onObject_tie.
+
+Theorem C08_checkInputParameter_failed :
+  forall (vn : Z -> Z) (fuel : nat) (h : CHeap.heap) (cb : nat) (es : list expn) (idof : nat -> Z)
+  (nodes : list nat) (c : acall) (nm : Z) (x : C08_CallTie.cenv) (cur : Z) (evs : list Gen_HeapC08L.lev)
+  (ans : list Z) (pm : Z),
+  C08_CallTie.arep h cb (C08_CallTie.blk_of nm c x cur) es idof nodes ->
+  c_state c = Failed ->
+  Gen_HeapC08L.src_acall_checkInputParameter vn fuel h evs ans (CHeap.HPtr cb 0) pm = CMem.FOk (tt, h, evs, ans).
+Proof. exact C08_CallTie.checkInputParameter_failed. Qed.
+Print Assumptions C08_checkInputParameter_failed.
+
+Theorem C08_checkOutputParameter_failed :
+  forall (vn : Z -> Z) (fuel : nat) (h : CHeap.heap) (cb : nat) (es : list expn) (idof : nat -> Z)
+  (nodes : list nat) (c : acall) (nm : Z) (x : C08_CallTie.cenv) (cur : Z) (evs : list Gen_HeapC08L.lev)
+  (ans : list Z) (pm : Z),
+  C08_CallTie.arep h cb (C08_CallTie.blk_of nm c x cur) es idof nodes ->
+  c_state c = Failed ->
+  Gen_HeapC08L.src_acall_checkOutputParameter vn fuel h evs ans (CHeap.HPtr cb 0) pm =
+  CMem.FOk (tt, h, evs, ans).
+Proof. exact C08_CallTie.checkOutputParameter_failed. Qed.
+Print Assumptions C08_checkOutputParameter_failed.
+
+Theorem C08_onObject_failed :
+  forall (fuel : nat) (h : CHeap.heap) (cb : nat) (es : list expn) (idof : nat -> Z)
+  (nodes : list nat) (c : acall) (nm : Z) (x : C08_CallTie.cenv) (cur : Z) (evs : list Gen_HeapC08L.lev)
+  (ans : list Z) (ob : Z),
+  C08_CallTie.arep h cb (C08_CallTie.blk_of nm c x cur) es idof nodes ->
+  c_state c = Failed ->
+  Gen_HeapC08L.src_acall_onObject fuel h evs ans (CHeap.HPtr cb 0) ob = CMem.FOk (tt, h, evs, ans).
+Proof. exact C08_CallTie.onObject_failed. Qed.
+Print Assumptions C08_onObject_failed.
+
+Theorem C08_checkExpectations_tie :
+  forall (fuel : nat) (h : CHeap.heap) (cb : nat) (es : list expn) (idof : nat -> Z)
+  (nodes : list nat) (c : acall) (nm : Z) (x : C08_CallTie.cenv) (cur : Z) (evs : list Gen_HeapC08L.lev)
+  (rest : list Z),
+  C08_CallTie.arep h cb (C08_CallTie.blk_of nm c x cur) es idof nodes ->
+  (c_state c = InProgress -> existsb e_cur es = false) ->
+  (C08_CallTie.ncand es < fuel)%nat ->
+  let g := C08_CallTie.g_check (c_order c) in
+  let fc := call_was_made (c_order c) in
+  let A := C08_CallTie.ce_answers g (c_checked c) (c_state c) es in
+  let E := C08_CallTie.ce_events g (c_checked c) (c_state c) cur (Z.of_N (c_order c)) idof nodes es in
+  let N := C08_CallTie.ce_nodes g (c_checked c) (c_state c) nodes es in
+  exists h' : CHeap.heap,
+  Gen_HeapC08L.src_acall_checkExpectations fuel h evs (A ++ rest) (CHeap.HPtr cb 0) =
+  CMem.FOk (tt, h', evs ++ E, rest) /\
+  C08_CallTie.cframe h h' cb nodes N /\
+  match check_call es c with
+  | inl (es', c') => C08_CallTie.acall_at h' cb es' idof N c' nm x /\ C08_CallTie.fails E = []
+  | inr fl =>
+  match f_kind fl with
+  | FUnexpectedCall f =>
+  C08_CallTie.acall_at h' cb es idof N (set_state (set_checked c) Failed) nm x /\
+  C08_CallTie.fails E =
+  [Gen_HeapC08L.LFailure (C08_CallTie.fail_class (FUnexpectedCall f)); Gen_HeapC08L.LReport]
+  | FAdditionalCall f nth =>
+  C08_CallTie.acall_at h' cb es idof N (set_state (set_checked c) Failed) nm x /\
+  C08_CallTie.fails E =
+  [Gen_HeapC08L.LFailure (C08_CallTie.fail_class (FAdditionalCall f nth)); Gen_HeapC08L.LReport]
+  | FParamName f p =>
+  C08_CallTie.acall_at h' cb es idof N (set_state (set_checked c) Failed) nm x /\
+  C08_CallTie.fails E =
+  [Gen_HeapC08L.LFailure (C08_CallTie.fail_class (FParamName f p)); Gen_HeapC08L.LReport]
+  | FParamValue f p =>
+  C08_CallTie.acall_at h' cb es idof N (set_state (set_checked c) Failed) nm x /\
+  C08_CallTie.fails E =
+  [Gen_HeapC08L.LFailure (C08_CallTie.fail_class (FParamValue f p)); Gen_HeapC08L.LReport]
+  | FParamMissing f listed =>
+  C08_CallTie.acall_at h' cb es idof N (set_state (set_checked c) Failed) nm x /\
+  C08_CallTie.fails E =
+  [Gen_HeapC08L.LFailure (C08_CallTie.fail_class (FParamMissing f listed)); Gen_HeapC08L.LReport]
+  | FObjectMissing f =>
+  C08_CallTie.acall_at h' cb es idof N (set_state (set_checked c) Failed) nm x /\
+  C08_CallTie.fails E =
+  [Gen_HeapC08L.LFailure (C08_CallTie.fail_class (FObjectMissing f)); Gen_HeapC08L.LReport]
+  | FNotFulfilled =>
+  C08_CallTie.acall_at h' cb es idof N (set_state (set_checked c) Failed) nm x /\
+  C08_CallTie.fails E =
+  [Gen_HeapC08L.LFailure (C08_CallTie.fail_class FNotFulfilled); Gen_HeapC08L.LReport]
+  | FOutOfOrder =>
+  C08_CallTie.acall_at h' cb es idof N (set_state (set_checked c) Failed) nm x /\
+  C08_CallTie.fails E =
+  [Gen_HeapC08L.LFailure (C08_CallTie.fail_class FOutOfOrder); Gen_HeapC08L.LReport]
+  | FCannotHappen =>
+  C08_CallTie.acall_at h' cb es idof N (set_checked c) nm x /\
+  C08_CallTie.fails E = [Gen_HeapC08L.LAbort]
+  | FOutName f p =>
+  C08_CallTie.acall_at h' cb es idof N (set_state (set_checked c) Failed) nm x /\
+  C08_CallTie.fails E =
+  [Gen_HeapC08L.LFailure (C08_CallTie.fail_class (FOutName f p)); Gen_HeapC08L.LReport]
+  | FOutType f p =>
+  C08_CallTie.acall_at h' cb es idof N (set_state (set_checked c) Failed) nm x /\
+  C08_CallTie.fails E =
+  [Gen_HeapC08L.LFailure (C08_CallTie.fail_class (FOutType f p)); Gen_HeapC08L.LReport]
+  | FObjectUnexpected f =>
+  C08_CallTie.acall_at h' cb es idof N (set_state (set_checked c) Failed) nm x /\
+  C08_CallTie.fails E =
+  [Gen_HeapC08L.LFailure (C08_CallTie.fail_class (FObjectUnexpected f)); Gen_HeapC08L.LReport]
+  end
+  end.
+Proof. exact C08_CallTie.checkExpectations_tie. Qed.
+Print Assumptions C08_checkExpectations_tie.
+
+Theorem C08_abort_iff_cannot_happen :
+  forall (es : list expn) (c : acall) (cur : Z) (idof : nat -> Z) (nodes : list nat),
+  In Gen_HeapC08L.LAbort
+  (C08_CallTie.ce_events (C08_CallTie.g_check (c_order c)) (c_checked c) (c_state c) cur
+  (Z.of_N (c_order c)) idof nodes es) <->
+  (exists fl : failure, check_call es c = inr fl /\ f_kind fl = FCannotHappen).
+Proof. exact C08_CallTie.abort_iff_cannot_happen. Qed.
+Print Assumptions C08_abort_iff_cannot_happen.
+
+Theorem C08_cannot_happen_unreachable :
+  forall (es : list expn) (c : acall) (fl : failure),
+  C08_CallTie.call_inv es c -> check_call es c = inr fl -> f_kind fl <> FCannotHappen.
+Proof. exact C08_CallTie.cannot_happen_unreachable. Qed.
+Print Assumptions C08_cannot_happen_unreachable.
+
+Theorem C08_no_abort :
+  forall (g : expn -> expn) (es : list expn) (c : acall) (cur : Z) (idof : nat -> Z) (nodes : list nat),
+  C08_CallTie.call_inv es c ->
+  ~
+  In Gen_HeapC08L.LAbort
+  (C08_CallTie.ce_events g (c_checked c) (c_state c) cur (Z.of_N (c_order c)) idof nodes es).
+Proof. exact C08_CallTie.no_abort. Qed.
+Print Assumptions C08_no_abort.
+
+Theorem C08_reports_at_most_once :
+  forall (vn : Z -> Z) (fuel cb : nat) (idof : nat -> Z) (nodes : list nat) (nm : Z)
+  (x : C08_CallTie.cenv) (ss : list C08_CallTie.lstep) (h : CHeap.heap) (es : list expn)
+  (c : acall) (cur : Z) (evs : list Gen_HeapC08L.lev) (ans : list Z),
+  C08_CallTie.arep h cb (C08_CallTie.blk_of nm c x cur) es idof nodes ->
+  c_state c = Failed ->
+  (C08_CallTie.ncand es < fuel)%nat ->
+  exists (h' : CHeap.heap) (evs' : list Gen_HeapC08L.lev) (es' : list expn) (c' : acall),
+  C08_CallTie.run_steps vn fuel ss h evs ans cb = CMem.FOk (tt, h', evs ++ evs', ans) /\
+  C08_CallTie.fails evs' = [] /\
+  C08_CallTie.arep h' cb (C08_CallTie.blk_of nm c' x cur) es' idof nodes /\
+  c_state c' = Failed /\ C08_CallTie.cframe h h' cb nodes nodes.
+Proof. exact C08_CallTie.reports_at_most_once. Qed.
+Print Assumptions C08_reports_at_most_once.
+
+Theorem C08_failTest_once :
+  forall (fuel : nat) (h : CHeap.heap) (cb : nat) (es : list expn) (idof : nat -> Z)
+  (nodes : list nat) (c : acall) (nm : Z) (x : C08_CallTie.cenv) (cur : Z) (evs : list Gen_HeapC08L.lev)
+  (ans : list Z),
+  C08_CallTie.arep h cb (C08_CallTie.blk_of nm c x cur) es idof nodes ->
+  c_state c = Failed ->
+  Gen_HeapC08L.src_acall_failTest fuel h evs ans (CHeap.HPtr cb 0) = CMem.FOk (tt, h, evs, ans).
+Proof. exact C08_CallTie.failTest_once. Qed.
+Print Assumptions C08_failTest_once.
+
+Theorem C08_inv_with_name :
+  forall (es : list expn) (c : acall),
+  existsb e_cur es = false ->
+  match with_name es c with
+  | inl (es', c') => C08_CallTie.call_inv es' c'
+  | inr _ => True
+  end.
+Proof. exact C08_CallTie.inv_with_name. Qed.
+Print Assumptions C08_inv_with_name.
+
+Theorem C08_inv_check_input :
+  forall (n : name) (v : pv) (es : list expn) (c : acall),
+  match check_input n v es c with
+  | inl (es', c') => C08_CallTie.call_inv es' c'
+  | inr _ => True
+  end.
+Proof. exact C08_CallTie.inv_check_input. Qed.
+Print Assumptions C08_inv_check_input.
+
+Theorem C08_inv_check_output :
+  forall (n : name) (buf : list N) (es : list expn) (c : acall),
+  match check_output n buf es c with
+  | inl (es', c') => C08_CallTie.call_inv es' c'
+  | inr _ => True
+  end.
+Proof. exact C08_CallTie.inv_check_output. Qed.
+Print Assumptions C08_inv_check_output.
+
+Theorem C08_inv_on_object :
+  forall (a : Z) (es : list expn) (c : acall),
+  C08_CallTie.call_inv es c ->
+  match on_object a es c with
+  | inl (es', c') => C08_CallTie.call_inv es' c'
+  | inr _ => True
+  end.
+Proof. exact C08_CallTie.inv_on_object. Qed.
+Print Assumptions C08_inv_on_object.
+
+Theorem C08_complete_two_cur :
+  let es := [C08_CallTie.ex_cur_e false true; C08_CallTie.ex_cur_e true false] in
+  C08_ListTie.pos_from e_cur 0 (C08_CallTie.complete_es es) = [0%nat; 1%nat] /\
+  C08_CallTie.cur_code (fun k : nat => 11 + Z.of_nat k) (C08_CallTie.complete_es es) = None.
+Proof. exact C08_CallTie.complete_two_cur. Qed.
+Print Assumptions C08_complete_two_cur.
